@@ -39,6 +39,7 @@ for X in ('a', 'g'):
                                  f'awaited(self._{X}_factor) is old(awaited(self._{X}_factor))'),
         ],
         modifies=[f'self._{X}_inv', f'self._{X}_factor', '*.resolved', 'ghost:next_sid'],
+        ghost_sets=[(f'self.gh_{X}_from', f'awaited(self._{X}_factor)'), (f'self.gh_{X}_damping', 'damping')],
     )
     contract(
         f'{I}.broadcast_{X}_inv', props=['C02', 'C03', 'C09', 'C13'], params={'src': KInt, 'group': G},
@@ -64,7 +65,7 @@ for X in ('a', 'g'):
     )
 
 contract(
-    f'{I}.preconditioned_grad', props=['C01', 'C10'], params={'damping': KDyn},
+    f'{I}.preconditioned_grad', props=['C01', 'C10', 'C03'], params={'damping': KDyn},
     requires=GRADS + PENDING('_a_inv') + PENDING('_g_inv') + DAMP,
     raises=[('RuntimeError', 'self._a_inv is None or self._g_inv is None')],
     ensures=[
@@ -124,6 +125,7 @@ contract(
         ('factor_untouched', 'val(awaited(self._a_factor)) == old(val(awaited(self._a_factor))) and awaited(self._a_factor) is old(awaited(self._a_factor))'),
     ],
     modifies=['self._qa', 'self._da', 'self._a_factor', '*.resolved', 'ghost:next_sid'],
+    ghost_sets=[('self.gh_a_from', 'awaited(self._a_factor)'), ('self.gh_a_damping', 'damping')],
 )
 contract(
     f'{E}.compute_g_inv', props=['C01', 'C09', 'C13'], params={'damping': KDyn},
@@ -148,9 +150,10 @@ contract(
         ('a_data_kept', 'implies(not self.prediv_eigenvalues, awaited(self._da) is old(awaited(self._da))) and implies(self._da is not None, len(awaited(self._da).shape) == 1)'),
     ],
     modifies=['self._qg', 'self._dg', 'self._da', 'self._dgda', 'self._g_factor', '*.resolved', 'ghost:next_sid'],
+    ghost_sets=[('self.gh_g_from', 'awaited(self._g_factor)'), ('self.gh_g_damping', 'damping')],
 )
 contract(
-    f'{E}.preconditioned_grad', props=['C01', 'C10'], params={'damping': KDyn},
+    f'{E}.preconditioned_grad', props=['C01', 'C10', 'C03'], params={'damping': KDyn},
     requires=GRADS + SO_PENDING + DAMP,
     raises=[('RuntimeError', 'self._qa is None or self._qg is None or (not self.prediv_eigenvalues and self._da is None) '
                              'or (not self.prediv_eigenvalues and self._dg is None) or (self.prediv_eigenvalues and self._dgda is None)')],
